@@ -12,6 +12,7 @@ import errno
 import gc
 import io
 import os
+import signal
 import socket
 import struct
 import subprocess
@@ -87,6 +88,17 @@ class _Bug(BaseException):
     """Harness misuse (never part of a scripted world)."""
 
 
+class _Stuck(BaseException):
+    """The driven loop would never end: it went to sleep with nothing that could ever wake it, or used
+    up its pass budget, or ran into the wall-clock watchdog.  Aborts the run; the oracle decides."""
+
+
+T0 = 1700000000.0          # fake clock origin (s)
+TICK = 0.001               # every top-level select costs this much fake time
+WATCHDOG_S = 20            # wall clock per run
+LEFT_OVER_S = 2.0          # fake seconds the rules may outlive ssh
+
+
 def make_exc(kind, helpers):
     if kind == 'fatal':
         return helpers.Fatal('injected')
@@ -114,6 +126,8 @@ def kind_of(e, helpers):
         return 'assert'
     if isinstance(e, _Bug):
         raise e
+    if isinstance(e, _Stuck):
+        return 'stuck'
     return 'other'
 
 
@@ -142,6 +156,14 @@ class World:
         self.reaped = False       # a poll()/waitpid of the parent has collected that status
         self.daemonized = False   # after daemonize() ssh is no longer our child (init reaps it at once)
         self.probed = -1          # last loop iteration whose liveness probe reached the world
+        self.now = T0             # fake clock, advanced by the scenario only
+        self.timed = 'history' in script
+        self.queue = [tuple(x) for x in script.get('history', [])]   # (dt_ms, kind, arg) still to happen
+        self.stuck = None         # (reason, number of events recorded when the run was aborted)
+        self.death_time = None
+        self.close_time = None
+        self.passes = 0
+        self.probe_times = []
 
     def call(self, ev):
         idx = self.calls
@@ -161,6 +183,7 @@ class World:
         if self.iter >= len(steps):
             raise make_exc(self.s['end'], self.helpers)
         st = steps[self.iter]
+        self.now += st.get('dt', 0) / 1000.0
         a = st['arrive']
         if a == 'E':
             self.eof = True
@@ -168,10 +191,38 @@ class World:
             self.chunks.append(bytes(a))
         self.grant = st['grant']
         self.acceptable = bool(st['accept'])
-        self.probed = self.iter
         if st['alive'] is not None and self.dead_rv is None:
             self.dead_rv = st['alive']
+            self.death_time = self.now
         return self.dead_rv
+
+    def probe(self):
+        """A liveness probe reached the world: poll()/kill() of the loop."""
+        self.probe_times.append(self.now)
+        if self.timed:
+            return self.dead_rv
+        rv = self.advance()
+        self.probed = self.iter
+        return rv
+
+    def happen(self, dt, kind, arg):
+        """One event of a timed history."""
+        self.now += dt / 1000.0
+        if kind == 'data':
+            self.chunks.append(common.unhex(arg) if isinstance(arg, str) else bytes(arg))
+        elif kind == 'accept':
+            self.acceptable = True
+        elif kind == 'death':
+            self.dead_rv = arg
+            self.death_time = self.now
+            self.eof = True          # the dying ssh closes its stdout
+            self.info.append((len(self.events), 'death', self.now))
+        elif kind == 'sigint':
+            raise KeyboardInterrupt()
+        elif kind == 'sigterm':
+            raise SystemExit(1)
+        else:
+            raise _Bug('unknown history event %r' % (kind,))
 
 
 class PipeR:
@@ -234,7 +285,7 @@ class SshProc:
             w.polled0 = True
             return w.s['poll0']
         w.call('poll')
-        rv = w.advance()
+        rv = w.probe()
         if rv is not None:
             w.reaped = True       # Popen.poll() = waitpid(WNOHANG): the zombie is collected
         return rv
@@ -307,6 +358,7 @@ class Pfile:
     def close(self):
         # the descriptor is released even when the flush inside close() raises
         self.w.closed = True
+        self.w.close_time = self.w.now
         self.w.call('close')
 
 
@@ -322,6 +374,8 @@ class ListenSock:
 
     def accept(self):
         self.w.call('accept')
+        if self.w.timed:
+            self.w.acceptable = False
         return ConnSock(self.w), ('127.0.0.1', 40000)
 
     def getsockname(self):
@@ -367,9 +421,8 @@ class FakeSelect:
     def __init__(self, w):
         self.w = w
 
-    def select(self, r, wl, x, timeout=None):
+    def ready(self, r, wl):
         w = self.w
-        w.call('sel' if timeout is None else 'selmux')
         rr = []
         for s in r:
             if isinstance(s, PipeR) and (w.chunks or w.eof):
@@ -377,7 +430,32 @@ class FakeSelect:
             elif isinstance(s, ListenSock) and s.no == 0 and w.acceptable:
                 rr.append(s)
         ww = [s for s in wl if isinstance(s, PipeW) and w.grant is not None]
-        return rr, ww, []
+        return rr, ww
+
+    def select(self, r, wl, x, timeout=None):
+        w = self.w
+        w.call('sel' if timeout is None else 'selmux')
+        if timeout is not None:
+            rr, ww = self.ready(r, wl)
+            return rr, ww, []
+        w.now += TICK
+        if not w.timed:
+            # the scripted step of this round normally comes with the liveness probe; a loop that did not
+            # probe in this round still gets its step (and, when the script is used up, its end signal) here
+            while w.iter < w.passes - 1:
+                w.advance()
+            rr, ww = self.ready(r, wl)
+            return rr, ww, []
+        # timed history: a blocked select returns only when something happens
+        while True:
+            rr, ww = self.ready(r, wl)
+            if rr or ww:
+                return rr, ww, []
+            if not w.queue:
+                w.stuck = ('sleep', len(w.events))
+                raise _Stuck('select() with nothing ready and nothing that could ever become ready')
+            dt, kind, arg = w.queue.pop(0)
+            w.happen(dt, kind, arg)
 
 
 class Stdout:
@@ -546,10 +624,20 @@ def run_real(script, faults, realfw=False):
     real_runonce = ssnet.runonce
     count = [0]
 
+    budget = 4 * (len(script['steps']) + len(script.get('history', []))) + 3000
+
     def runonce(handlers, mux):
         w.mark('run%d' % count[0])
         count[0] += 1
+        w.passes = count[0]
+        if count[0] > budget:
+            w.stuck = ('budget', len(w.events))
+            raise _Stuck('pass budget of %d used up' % budget)
         return real_runonce(handlers, mux)
+
+    def on_alarm(signum, frame):
+        w.stuck = ('watchdog', len(w.events))
+        raise _Stuck('wall-clock watchdog')
 
     def connect(*a, **k):
         w.call('connect')
@@ -569,7 +657,7 @@ def run_real(script, faults, realfw=False):
     def kill(pid, sig):
         if pid == FAKE_PID and sig == 0:
             w.call('kill')
-            rv = w.advance()
+            rv = w.probe()
             # kernel semantics: the pid of an exited child stays valid (zombie) until its parent reaps it,
             # so kill(pid, 0) succeeds; an orphan (after daemonize) is reaped by init at once -> ESRCH
             if rv is not None and (w.daemonized or w.reaped):
@@ -584,6 +672,12 @@ def run_real(script, faults, realfw=False):
     s_connect, s_runonce, s_select, s_sslog, s_send = ssh.connect, ssnet.runonce, ssnet.select, ssnet.log, sdnotify.send
     s_stdout, s_stderr, s_prefix, s_verbose = sys.stdout, sys.stderr, helpers.logprefix, helpers.verbose
     s_sub, s_admin, s_getm = client.ssubprocess, client.is_admin_user, client.get_method
+    s_time = client.time
+    client.time = types.SimpleNamespace(time=lambda: w.now, sleep=lambda n: None)
+    if script.get('history') is not None:
+        w.grant = 4096
+    old_alarm = signal.signal(signal.SIGALRM, on_alarm)
+    signal.setitimer(signal.ITIMER_REAL, WATCHDOG_S)
     client.FirewallClient = RecFw
     if realfw:
         client.FirewallClient = RealFw
@@ -628,7 +722,10 @@ def run_real(script, faults, realfw=False):
     finally:
         for k, v in saved.items():
             setattr(client, k, v)
+        signal.setitimer(signal.ITIMER_REAL, 0)
+        signal.signal(signal.SIGALRM, old_alarm)
         client.ssubprocess, client.is_admin_user, client.get_method = s_sub, s_admin, s_getm
+        client.time = s_time
         ssh.connect, ssnet.runonce, ssnet.select, ssnet.log, sdnotify.send = \
             s_connect, s_runonce, s_select, s_sslog, s_send
         os.kill = real_kill
@@ -826,6 +923,34 @@ def oracle(script, faults, events, outcome, w):
                         'after non-frame bytes on the tunnel the session ends (pfile closed) within %d loop rounds' % ROUNDS_BOUND,
                         'corrupt header read at event %d; %d further rounds (%s) with the helper started and pfile open'
                         % (corrupt_at, len(later), ','.join(later))))
+    # R9: the loop must end.  Going to sleep for ever / using up the pass budget / the watchdog is a verdict,
+    # never a time-out of the check; and the rules must not outlive ssh by more than LEFT_OVER_S (fake time)
+    started = bool(starts)
+    if w.stuck:
+        reason, at = w.stuck
+        before = ev[:at]
+        open_then = 'close' not in before
+        if w.dead_rv is not None and started and open_then:
+            bad.append(('C12:stuck-after-ssh-death',
+                        'once ssh has exited the main loop ends and the control channel is closed',
+                        'ssh exited with %r at t=%.3fs; the loop then %s at t=%.3fs after %d passes (liveness probes at %s) '
+                        'with the helper started and pfile open'
+                        % (w.dead_rv, (w.death_time or T0) - T0,
+                           {'sleep': 'went to sleep in select() with nothing that could wake it',
+                            'budget': 'used up its pass budget', 'watchdog': 'ran into the wall-clock watchdog'}[reason],
+                           w.now - T0, w.passes, ['%.3f' % (t - T0) for t in w.probe_times][-4:])))
+        else:
+            bad.append(('C12:loop-does-not-end', 'every scripted session ends',
+                        'aborted (%s) after %d passes at t=%.3fs; ssh dead=%r helper started=%r'
+                        % (reason, w.passes, w.now - T0, w.dead_rv, started)))
+    elif w.death_time is not None and started and w.close_time is not None and not faults:
+        if starts[0] < closes[0] if closes else False:
+            if w.close_time - max(w.death_time, 0) > LEFT_OVER_S and \
+                    any(x[1] in ('death',) for x in w.info):
+                bad.append(('C12:rules-left-over-dead-tunnel',
+                            'the control channel is closed within %.0f s (scenario time) of ssh exiting' % LEFT_OVER_S,
+                            'ssh exited at t=%.3fs, pfile.close() at t=%.3fs (liveness probes at %s)'
+                            % (w.death_time - T0, w.close_time - T0, ['%.3f' % (t - T0) for t in w.probe_times][-4:])))
     return bad
 
 
@@ -1208,6 +1333,56 @@ def realfw_scripts(ssnet):
     return out
 
 
+def timed_histories(ssnet, rng, thorough):
+    """Histories with an explicit time base: (dt_ms since the previous event, kind, arg).  ssh dies
+    0 ms / 10 ms / 999 ms / 1 s / 5 s after the event that caused the previous liveness check, during the
+    first, second or n-th sleep; afterwards nothing happens at all, or ^C an hour later, or a connection 5 s later."""
+    base = dict(daemon=0, udp=0, lat=1, auto=0, seed=None, inc=1, exc=0, ns=0, poll0=None, line=b'STARTED\n',
+                hpoll=None, wait=0, end='kbint', steps=[])
+    sync = b'\0\0' + SYNC
+    r = fr(0, ssnet.CMD_ROUTES, b'2,10.0.0.0,8\n')
+    ping = hexb(fr(0, ssnet.CMD_PING, b'x'))
+    out = []
+    for d in (0, 1):
+        for nth in (1, 2, 4):
+            for gap in (0, 10, 999, 1000, 5000):
+                for tail in ('nothing', 'sigint', 'accept'):
+                    if not thorough and rng.random() < 0.5 and not (gap == 10 and tail == 'nothing'):
+                        continue
+                    h = []
+                    for k in range(nth - 1):
+                        h.append((rng.choice([0, 3, 400, 1500]), rng.choice(['data', 'data', 'accept']), ping))
+                        if h[-1][1] == 'accept':
+                            h[-1] = (h[-1][0], 'accept', None)
+                    h.append((gap, 'death', rng.choice([0, 1, 255])))
+                    if tail == 'sigint':
+                        h.append((3600 * 1000, 'sigterm' if d else 'sigint', None))
+                    elif tail == 'accept':
+                        h.append((5000, 'accept', None))
+                        h.append((3600 * 1000, 'sigterm' if d else 'sigint', None))
+                    out.append(dict(base, daemon=d, hs=[sync + r], history=h))
+    return out
+
+
+def timed_stream(ctx):
+    ssnet = _mods()[0]
+    nbad = 0
+    for s in timed_histories(ssnet, ctx.rng, ctx.thorough):
+        if nbad >= 4:
+            break
+        ev, outcome, w = run_real(s, {})
+        ctx.count()
+        ctx.hist('timed-history')
+        ctx.mark(('timed', ser_script(s)), nontrivial=True)
+        for key, exp, obs in oracle(s, {}, ev, outcome, w):
+            nbad += 1
+            ctx.violation(key, case=dict(timed=True, script=ser_script(s), faults={}), expected=exp,
+                          observed=obs + ' | history: %r | trace: %s %s' % (s['history'], ' '.join(ev[-40:]), outcome),
+                          kind='history')
+        ctx.sample(dict(stream='timed history', history=s['history'], daemon=s['daemon'],
+                        real_code_trace=' '.join(ev[-25:]) + ' ' + outcome), limit=9)
+
+
 def nfds():
     return len(os.listdir('/proc/self/fd'))
 
@@ -1244,6 +1419,7 @@ def realfw_stream(ctx):
 def run(ctx):
     env_probe(ctx)
     realfw_stream(ctx)
+    timed_stream(ctx)
     cases = gen_cases(ctx)
     for c in cases:
         ctx.mark(c.line, nontrivial=(0 not in c.faults))
